@@ -39,12 +39,12 @@ Inductive case :=
 | CWrite (t : tx) (rec : bytes)
 (* pristine store with embedded values: the bytes that precede the record *)
 | CEmb (vals : list bytes) (pre : bytes)
-(* ImmuStore.ReadValue on an entry with (vlen, off, hval); mode 0 embedded / 1 single vlog /
+(* ImmuStore.ReadValue on an entry with (vlen, off, hval); mvl = the store's MaxValueLen; mode 0 embedded / 1 single vlog /
    2 several vlogs; txlog is given in embedded mode only *)
-| CVal (mode : N) (txlog : bytes) (vlogs : list bytes) (vlen off : N) (hval : bytes) (out : res bytes)
+| CVal (mvl mode : N) (txlog : bytes) (vlogs : list bytes) (vlen off : N) (hval : bytes) (out : res bytes)
 (* the value part of ImmuStore.ExportTx(id, false, false, holder): es = (vLen, vOff, hVal) of the
    entries ReadTx returned; out = the "values truncated" flag and the per-entry payloads *)
-| CExp (mode : N) (txlog : bytes) (vlogs : list bytes) (es : list (N * N * bytes))
+| CExp (mvl mode : N) (txlog : bytes) (vlogs : list bytes) (es : list (N * N * bytes))
        (out : res (bool * list bytes)).
 
 Definition case_ok (c : case) : bool :=
@@ -56,11 +56,11 @@ Definition case_ok (c : case) : bool :=
       res_eqb txhdr_eqb (hdr_of (read_tx_at sha256 true ns mk s 0 (len s))) o
   | CWrite t rec => res_eqb bytes_eqb (write_tx sha256 t) (Ok rec)
   | CEmb vals pre => bytes_eqb (write_embedded_prefix vals) pre
-  | CVal m txlog vlogs vlen off hval o =>
-      res_eqb bytes_eqb (read_value sha256 (vmode_of m) txlog vlogs vlen off hval) o
-  | CExp m txlog vlogs es o =>
+  | CVal mvl m txlog vlogs vlen off hval o =>
+      res_eqb bytes_eqb (read_value sha256 mvl (vmode_of m) txlog vlogs vlen off hval) o
+  | CExp mvl m txlog vlogs es o =>
       res_eqb (fun a b => Bool.eqb (fst a) (fst b) && list_eqb bytes_eqb (snd a) (snd b))
-        (export_values sha256 true (vmode_of m) txlog vlogs
+        (export_values sha256 true mvl (vmode_of m) txlog vlogs
            (map (fun x => {| e_md := None; e_key := []; e_vlen := fst (fst x); e_voff := snd (fst x);
                              e_hval := snd x |}) es) 0 false) o
   end.
